@@ -164,7 +164,74 @@ def _m_from_bytes(b, order="big", signed=False):
     return acc
 
 
+import struct as _struct
+
+_SIZES = {"B": 1, "b": 1, "H": 2, "h": 2, "I": 4, "i": 4, "L": 4, "l": 4, "Q": 8, "q": 8}
+
+
+def _fmt_items(fmt):
+    order = "big"
+    if fmt and fmt[0] in "<>=!@":
+        order = "little" if fmt[0] == "<" else ("big" if fmt[0] in ">!" else __import__("sys").byteorder)
+        fmt = fmt[1:]
+    items = []
+    import re
+    for cnt, ch in re.findall(r"(\d*)([A-Za-z])", fmt):
+        if ch not in _SIZES:
+            return None, None
+        items += [ch] * (int(cnt) if cnt else 1)
+    return order, items
+
+
+def _m_struct_pack(fmt, *vals):
+    if not any(_isinstance(v, (SymInt, SymBool)) for v in vals):
+        return _struct.pack(fmt, *vals)
+    order, items = _fmt_items(fmt)
+    if items is None or _len(items) != _len(vals):
+        return _struct.pack(fmt, *[conc(v) for v in vals])
+    out = []
+    for ch, v in zip(items, vals):
+        n = _SIZES[ch]
+        if _isinstance(v, SymBool):
+            v = v.as_int()
+        if _isinstance(v, SymInt):
+            lo, hi = (0, (1 << (8 * n)) - 1) if ch.isupper() else (-(1 << (8 * n - 1)), (1 << (8 * n - 1)) - 1)
+            if not ((v >= lo) & (v <= hi) if True else True):
+                raise _struct.error("argument out of range")
+        cells = [(v >> (8 * i)) & 0xFF for i in _range(n)]
+        if order == "big":
+            cells.reverse()
+        out += cells
+    return SymBytes(out, mutable=False)
+
+
+def _m_struct_unpack(fmt, data):
+    if not (_isinstance(data, SymBytes) and data.is_symbolic()):
+        return _struct.unpack(fmt, bytes(data.concrete()) if _isinstance(data, SymBytes) else data)
+    order, items = _fmt_items(fmt)
+    cells = SymBytes.of(data)
+    if items is None or sum(_SIZES[c] for c in items) != _len(cells):
+        return _struct.unpack(fmt, bytes(data.concrete()))
+    res, pos = [], 0
+    for ch in items:
+        n = _SIZES[ch]
+        part = cells[pos:pos + n]
+        pos += n
+        if order == "little":
+            part = part[::-1]
+        acc = 0
+        for c in part:
+            acc = (acc << 8) | c
+        if ch.islower():  # signed
+            sign = (acc >> (8 * n - 1)) & 1
+            acc = acc - (sign << (8 * n))
+        res.append(acc)
+    return tuple(res)
+
+
 MODELS = {
+    _struct.pack: _m_struct_pack,
+    _struct.unpack: _m_struct_unpack,
     _bytearray: _m_bytearray,
     _bytes: _m_bytes,
     _len: _m_len,
@@ -180,7 +247,12 @@ def _symbolic(x):
     return _isinstance(x, (SymInt, SymBool, SymBytes, OpaqueStr, SymStr))
 
 
+from . import trace as _trace
+
+
 def call(f, *a, **k):
+    if _trace.TR is not None:
+        _trace.method_call(f)
     if _ex._CUR is not None:
         try:
             m = MODELS.get(f)
@@ -206,6 +278,10 @@ def call(f, *a, **k):
 
 
 def getitem(a, i):
+    if _trace.TR is not None:
+        v = a[i]
+        _trace.read_item(a, i, v)
+        return v
     ti = type(i)
     if ti is _int or ti is str:
         return a[i]
